@@ -1205,3 +1205,35 @@ Example diagonal_test_nonvacuous :
   m_diagonal_mask (DInt u8) [3; 5; 200] [1; 5; 198] (-2) = [true; false; true] /\
   m_diagonal_mask (DInt u64) [3; 5] [1; 5] (-2) = [true; false].
 Proof. split; reflexivity. Qed.
+
+(* ------------------------------------------------------------------ GCXS reductions: the row numbers of the
+   re-compressed array are exact for every index type (they are made in the re-compressed array's own dtype,
+   which _transpose chose to hold its row count) *)
+Lemma zrange__bounds n : Forall (fun v => 0 <= v <= n - 1) (zrange_ n).
+Proof.
+  unfold zrange_. apply Forall_forall. intros v Hv. apply in_map_iff in Hv. destruct Hv as [k [<- Hk]].
+  apply in_seq in Hk. lia.
+Qed.
+
+Theorem gcxs_reduce_rows_exact_proof t d_self R C nnz :
+  std t -> 0 < R -> 0 < C -> 0 <= nnz -> Z.max (Z.max R C) nnz < 2 ^ 64 ->
+  rmap tv (m_gcxs_reduce_rows (DInt t) d_self R C nnz) = Ok (zrange_ R) /\
+  rmap tv (m_gcxs_reduce_rows (DInt t) d_self R C nnz) = rmap tv (m_gcxs_reduce_rows DInf DInf R C nnz).
+Proof.
+  intros St HR HC Hn Hm.
+  destruct (transpose_dtype_fits t R C nnz St ltac:(lia)) as [t' [E [S' F']]].
+  assert (E1 : rmap tv (m_gcxs_reduce_rows (DInt t) d_self R C nnz) = Ok (zrange_ R)).
+  { unfold m_gcxs_reduce_rows. rewrite E. cbn [bind rmap]. f_equal.
+    unfold s_gcxs_reduce_rows, assign_into, astype. cbn [tv].
+    apply map_wr_id; [apply std_pos, S'|]. eapply Forall_impl; [|apply zrange__bounds]. cbn beta. intros v Hv.
+    apply (fits_le t' (Z.max (Z.max R C) nnz)); [apply std_pos, S'|exact F'|lia]. }
+  split; [exact E1|]. rewrite E1.
+  unfold m_gcxs_reduce_rows. rewrite transpose_dtype_is_get_out.
+  change (get_out_dtype DInf (Z.max (Z.max R C) nnz)) with (Ok DInf : res dty). cbn [bind rmap]. f_equal.
+  unfold s_gcxs_reduce_rows, assign_into, astype. cbn [tv]. symmetry.
+  generalize (zrange_ R). intros l. induction l; cbn; congruence.
+Qed.
+
+Example gcxs_reduce_rows_nonvacuous :
+  rmap (fun a => (tdt a, nth 399 (tv a) 0)) (m_gcxs_reduce_rows (DInt u8) (DInt u8) 400 3 113) = Ok (DInt u16, 399).
+Proof. vm_compute. reflexivity. Qed.
